@@ -11,7 +11,7 @@ import z3
 
 from ..common import OUT
 
-STATS = {'queries': 0, 'z3': 0, 'cvc5': 0, 'z3cli': 0, 'unknown': 0, 'time_s': 0.0}
+STATS = {'queries': 0, 'z3': 0, 'z3-ackermann-nlsat': 0, 'cvc5': 0, 'z3cli': 0, 'unknown': 0, 'time_s': 0.0}
 
 
 def _has_nonlinear_or_quant(fs):
@@ -36,7 +36,9 @@ def check(formulas, timeout_s=20, want_model=False, tag=''):
     elif r == z3.unsat:
         STATS['z3'] += 1
     else:
-        res2, be2 = _external(s, timeout_s * 3, tag)
+        res2, be2 = _ackermann_nlsat(formulas, timeout_s)
+        if res2 != 'unsat':
+            res2, be2 = _external(s, timeout_s * 3, tag)
         if res2 in ('sat', 'unsat'):
             res, backend = res2, be2
             STATS[be2 if be2 in STATS else 'cvc5'] += 1
@@ -45,6 +47,69 @@ def check(formulas, timeout_s=20, want_model=False, tag=''):
             res = 'unknown'
     STATS['time_s'] += time.time() - t0
     return res, model, backend
+
+
+def _ackermann_nlsat(formulas, timeout_s):
+    """Quantifier-free queries with uninterpreted functions over non-linear real arithmetic:
+    replace every UF application by a fresh constant, add the congruence axioms pairwise
+    (Ackermann reduction) and decide the pure arithmetic query with nlsat.  Only `unsat` is used:
+    the reduction is a relaxation of the original query, so `unsat` carries over."""
+    goal = z3.And(*[f for f in formulas]) if formulas else z3.BoolVal(True)
+    apps = {}
+    bad = [False]
+
+    def walk(t, seen):
+        if t.get_id() in seen:
+            return
+        seen.add(t.get_id())
+        if z3.is_quantifier(t):
+            bad[0] = True
+            return
+        if z3.is_app(t):
+            d = t.decl()
+            if d.kind() == z3.Z3_OP_UNINTERPRETED and t.num_args() > 0:
+                apps.setdefault(d.name(), []).append(t)
+            for ch in t.children():
+                walk(ch, seen)
+
+    walk(goal, set())
+    if bad[0] or not apps:
+        return 'unknown', ''
+    # innermost first so that nested applications are rewritten consistently
+    allapps = sorted({a.get_id(): a for v in apps.values() for a in v}.values(),
+                     key=lambda a: len(a.sexpr()))
+    if len(allapps) > 60:
+        return 'unknown', ''
+    subs = []
+    fresh = {}
+    for i, a in enumerate(allapps):
+        fresh[a.get_id()] = z3.Const(f'ack!{i}', a.sort())
+    def rew(t):
+        for a in reversed(allapps):          # outermost first
+            t = z3.substitute(t, (a, fresh[a.get_id()]))
+        return t
+    cong = []
+    for name, lst in apps.items():
+        uniq = list({a.get_id(): a for a in lst}.values())
+        for i in range(len(uniq)):
+            for j in range(i + 1, len(uniq)):
+                a, b = uniq[i], uniq[j]
+                if a.decl().arity() != b.decl().arity():
+                    continue
+                eqs = [rew(x) == rew(y) for x, y in zip(a.children(), b.children())]
+                cong.append(z3.Implies(z3.And(*eqs), fresh[a.get_id()] == fresh[b.get_id()]))
+    try:
+        sv = z3.Tactic('qfnra-nlsat').solver()
+        sv.set('timeout', int(timeout_s * 1000))
+        sv.add(rew(goal))
+        for c in cong:
+            sv.add(c)
+        r = sv.check()
+    except z3.Z3Exception:
+        return 'unknown', ''
+    if r == z3.unsat:
+        return 'unsat', 'z3-ackermann-nlsat'
+    return 'unknown', ''
 
 
 def smt2_of(s, logic=None):
